@@ -1,5 +1,6 @@
 """C10 — see DESIGN.md section 4. Proof obligations: Properties/C10.v. Tie: K5 on every case, under this property's observation."""
 from . import core
+from .c01 import sig_certificate
 
 PROP_FILE = 'Properties/C10.v'
 THEOREMS = ['C10_literal_leaf_exact', 'C10_atoms_rendered_verbatim', 'C10_rendered_string_is_atoms', 'C10_refuted',
@@ -7,4 +8,4 @@ THEOREMS = ['C10_literal_leaf_exact', 'C10_atoms_rendered_verbatim', 'C10_render
 
 
 def run(tier, seed, replay=None):
-    return core.run_property('C10', tier, seed, replay, 'c10w', PROP_FILE, THEOREMS, 'the content of a literal (string, raw text, number, identifier, label, ...) changed', ['known finding F4 (blanks before a line feed inside a string / raw block are stripped) is a theorem about the model (C10_refuted) and a listed class; literal comparison is exact for every other input'])
+    return core.run_property('C10', tier, seed, replay, 'c10w', PROP_FILE, THEOREMS, 'the content of a literal (string, raw text, number, identifier, label, ...) changed', ['known finding F4 (blanks before a line feed inside a string / raw block are stripped) is a theorem about the model (C10_refuted) and a listed class; literal comparison is exact for every other input'], post=sig_certificate)
